@@ -107,4 +107,20 @@ CHECKS["C01"] = {
     "level_note": SYS_NOTE,
 }
 
+CHECKS["C06"] = {
+    "subs": [{"pkg": "sys", "test": "TestC06", "quick": 96, "thorough": 3000, "shards_quick": 8, "shards_thorough": 12, "shrinktime": "10s", "timeout_quick": 900, "timeout_thorough": 7200}],
+    "engine": "SYS",
+    "level_text": "Generated combinations of hand-written (possibly false, cyclic, stale) routing views on real un-joined nodes with counting relays between nodes; per request the number of inter-node hops and the outcome are checked against the views and the real upstream placement. Exploration only.",
+    "technique": "configuration-level PBT (rapid) on real servers; oracle = hop counters in harness relays + upstream stamps",
+    "level_note": SYS_NOTE,
+}
+
+CHECKS["C18"] = {
+    "subs": [{"pkg": "sys", "test": "TestC18", "quick": 48, "thorough": 1200, "shards_quick": 8, "shards_thorough": 12, "shrinktime": "10s", "timeout_quick": 1200, "timeout_thorough": 7200}],
+    "engine": "SYS",
+    "level_text": "Generated node-loss scenarios (which node, graceful or kill, idle / attached / in-flight, grace period) on real clusters with upstream listeners behind a load balancer; the graceful path is checked for termination, withdrawal and synchronous leave notification, both paths for listener reconnection and recovery of service from every survivor. Exploration only; liveness against deadlines.",
+    "technique": "fault-scenario PBT (rapid) on real in-process servers; oracle = stamps, routing tables and shutdown timing",
+    "level_note": SYS_NOTE + "; a kill is emulated in-process by closing gossip sockets, listeners and sessions without leave",
+}
+
 NOT_APPLICABLE = {}
